@@ -857,7 +857,33 @@ def forms_65c02():
             yield it('org %d\n\tbbs%d 18,%d' % (at, n, at + 3 + dist), [0x8f | n << 4, 18, dist & 0xff], S + 'BBSn', at=at)
 
 
+def forms_avr_reduced():
+    """AVRrc (ATtiny4/5/9/10/20/40): registers r16..r31 only, and LDS/STS exist only in the 16-bit form 1010 skkk dddd kkkk for the
+    data addresses 0x40..0xBF, k[3:0] -> bits 3:0, k[5:4] -> bits 10:9, k[6] -> bit 8 (AVR Instruction Set Manual, 'LDS (AVRrc)', 'STS (AVRrc)')"""
+    S = 'avrrc/'
+
+    def w(v):
+        return [v & 0xff, v >> 8]
+    for d in (16, 17, 24, 31):
+        for k in (0x40, 0x41, 0x4f, 0x50, 0x5a, 0x7f, 0x80, 0x8f, 0xa5, 0xbf):
+            enc = (d & 15) << 4 | (k & 0x0f) | (k & 0x30) << 5 | (k & 0x40) << 2
+            yield it('lds r%d,%d' % (d, k), w(0xa000 | enc), S + 'LDS')
+            yield it('sts %d,r%d' % (k, d), w(0xa800 | enc), S + 'STS')
+    for k in (0, 0x3f, 0xc0, 0xff, 0x100):
+        yield it('lds r16,%d' % k, 'ERR', S + 'LDS/range')
+        yield it('sts %d,r16' % k, 'ERR', S + 'STS/range')
+    yield it('lds r15,64', 'ERR', S + 'LDS/register')
+    yield it('sts 64,r0', 'ERR', S + 'STS/register')
+    for mn, op in (('ldi', 0xE000), ('cpi', 0x3000), ('subi', 0x5000)):
+        for d in (16, 31):
+            yield it('%s r%d,165' % (mn, d), w(op | (165 & 0xf0) << 4 | (d - 16) << 4 | (165 & 0x0f)), S + mn.upper())
+    yield it('mov r16,r31', w(0x2C00 | 1 << 9 | 16 << 4 | 15), S + 'MOV')
+    yield it('mov r15,r16', 'ERR', S + 'MOV/register')
+    yield it('add r16,r7', 'ERR', S + 'ADD/register')
+
+
 ISAS = {
+    'avr-reduced-core': dict(cpu='attiny10', gen=forms_avr_reduced, slot=4),
     '6502': dict(cpu='6502', gen=forms_6502, slot=8),
     '8080': dict(cpu='8080', gen=forms_8080, slot=8),
     '8085': dict(cpu='8085', gen=forms_8085, slot=8),
